@@ -1,106 +1,37 @@
 // C01: build through the public API -> write -> load -> dump.  Shape and construction order are concrete
 // configuration (bounds); every float, integer value, name/description character and lock flag is symbolic.
-#include "vp.h"
-using namespace vp;
-
-static std::string nm(const char* pfx, int i) { std::string s(pfx); s.push_back(char('0' + i)); return s; }
-
+// cfg keys: P,C,S,F shape; order 0..2 construction order; ex_* the extra parameter; symnames; norate.
+#include "vp_build.h"
 extern "C" int h_c01() {
-  const int P = __vp_cfg("P"), C = __vp_cfg("C"), S = __vp_cfg("S"), F = __vp_cfg("F"), order = __vp_cfg("order");
-  const int ex_type = __vp_cfg("ex_type");      // 0 none, 2 int, 4 float, -1 string
-  const int ex_group = __vp_cfg("ex_group");    // 0 new group, 1 existing group POINT, 2 new group + second param in it
-  const int ex_ndim = __vp_cfg("ex_ndim");      // 0 => default (vector length), else explicit dims
-  const int ex_n = __vp_cfg("ex_n");            // number of values
-  const int ex_nlen = __vp_cfg("ex_nlen"), ex_dlen = __vp_cfg("ex_dlen"), ex_slen = __vp_cfg("ex_slen");
-  const int symnames = __vp_cfg("symnames");
-  ezc3d::c3d c;
-  std::vector<std::string> pn, an;
-  for (int i = 0; i < P; ++i) pn.push_back(symnames ? sym_str("pn", 2) : nm("p", i));
-  for (int i = 0; i < C; ++i) an.push_back(symnames ? sym_str("an", 2) : nm("a", i));
-  if (symnames) {
-    for (int i = 0; i < P; ++i) for (int j = 0; j < i; ++j) __vp_assume(pn[i][0] != pn[j][0]);
-    for (int i = 0; i < C; ++i) for (int j = 0; j < i; ++j) __vp_assume(an[i][0] != an[j][0]);
-  }
-  // inputs
-  std::vector<float> in;
-  std::vector<Frame> frames;
-  for (int f = 0; f < F; ++f) {
-    Frame fr; Points pts; Analogs ana;
-    for (int i = 0; i < P; ++i) {
-      Point pt; pt.name(pn[i]);
-      float x = __vp_sym_f32("x"), y = __vp_sym_f32("y"), z = __vp_sym_f32("z"), r = __vp_sym_f32("r");
-      pt.x(x); pt.y(y); pt.z(z); pt.residual(r); pts.point(pt);
-      in.push_back(x); in.push_back(y); in.push_back(z); in.push_back(r);
-    }
-    for (int s = 0; s < S; ++s) {
-      SubFrame sf;
-      for (int i = 0; i < C; ++i) { Channel ch; ch.name(an[i]); float v = __vp_sym_f32("a"); ch.data(v); sf.channel(ch); in.push_back(v); }
-      if (C > 0) ana.subframe(sf);
-    }
-    fr.add(pts, ana);
-    frames.push_back(fr);
-  }
-  // the extra parameter
-  Param ex(ex_nlen ? sym_str("exname", ex_nlen) : std::string("X"), sym_str("exdesc", ex_dlen, 1));
-  std::vector<int> ex_i; std::vector<float> ex_f; std::vector<std::string> ex_s; std::vector<size_t> dims;
-  if (ex_type) {
-    for (int i = 0; i < ex_ndim; ++i) { char k[8] = "ex_d0"; k[4] = char('0' + i); dims.push_back(__vp_cfg(k)); }
-    if (ex_type == 2) { for (int i = 0; i < ex_n; ++i) ex_i.push_back((int)(short)__vp_sym_u16("iv")); ex.set(ex_i, dims); }
-    if (ex_type == 4) { for (int i = 0; i < ex_n; ++i) ex_f.push_back(__vp_sym_f32("fv")); ex.set(ex_f, dims); }
-    if (ex_type == -1) { for (int i = 0; i < ex_n; ++i) ex_s.push_back(sym_str("sv", ex_slen)); ex.set(ex_s, dims); }
-    if (__vp_sym_u8("exlock") & 1) ex.lock();
-  }
-  const char* grp = ex_group == 1 ? "POINT" : "Grp";
-  if (ex_type && ex_group == 1 && ex_nlen) {
-    // names are case-insensitive in the format: the new name must differ from the group's existing names after upper-casing
-    std::string up = ex.name();
-    for (size_t i = 0; i < up.size(); ++i) if (up[i] >= 'a' && up[i] <= 'z') up[i] = char(up[i] - 32);
-    const char* existing[] = {"USED", "SCALE", "RATE", "DATA_START", "FRAMES", "LABELS", "DESCRIPTIONS", "UNITS"};
-    for (int i = 0; i < 8; ++i) __vp_assume(up != existing[i]);
-  }
-  const int norate = __vp_cfg("norate");   // analog-only content without a POINT:RATE (only meaningful with S == 1)
-  bool lockgrp = false;
-  // construction orders
-  if (order == 0) {
-    if (!norate) set_rate(c, "POINT", 100.f);
-    if (C) set_rate(c, "ANALOG", 100.f * S);
-    for (int i = 0; i < P; ++i) c.point(pn[i]);
-    for (int i = 0; i < C; ++i) c.analog(an[i]);
-    if (ex_type) c.parameter(grp, ex);
-    for (int f = 0; f < F; ++f) c.frame(frames[f]);
-  } else if (order == 1) {
-    if (ex_type) c.parameter(grp, ex);
-    for (int i = 0; i < C; ++i) c.analog(an[i]);
-    for (int i = 0; i < P; ++i) c.point(pn[i]);
-    if (C) set_rate(c, "ANALOG", 100.f * S);
-    if (!norate) set_rate(c, "POINT", 100.f);
-    for (int f = 0; f < F; ++f) c.frame(frames[f], f);           // indexed store at the current end (extends by one)
-    if (F > 1) c.frame(frames[F - 1], F - 1);                    // and an indexed replace with the same content
-    if (ex_type && ex_group != 1) { c.lockGroup(grp); lockgrp = true; }
-  } else {
-    if (!norate) set_rate(c, "POINT", 100.f);
-    if (C) set_rate(c, "ANALOG", 100.f * S);
-    for (int i = 0; i < C; ++i) c.analog(an[i]);                  // channels must be declared (documented); points need not
-    for (int f = 0; f < F; ++f) c.frame(frames[f]);               // points not declared: the first frame declares them
-    if (F > 1) c.frame(frames[0], 0);                            // replace in place with the same content
-    if (ex_type) { c.parameter(grp, ex); if (ex_group != 1) { c.lockGroup(grp); c.unlockGroup(grp); } }
-    if (ex_type && ex_group == 2) { Param q("Second", "d2"); q.set(std::vector<int>() = {7, -8, 9}, std::vector<size_t>() = {3}); c.parameter(grp, q); }
-  }
-  (void)lockgrp;
+  ezc3d::c3d c; Built B;
+  build_object(c, B);
   dump_all(c, "pre", false);
   c.write("out.c3d");
   ezc3d::c3d d("out.c3d");
   dump_all(d, "post", false);
-  // expectation of the data section, from the inputs
-  __vp_tag("in");
-  __vp_obs_u64("dat.nbFrames", F);
-  size_t k = 0;
-  for (int f = 0; f < F; ++f) {
-    __vp_obs_u64("frm.nbPoints", P);
-    for (int i = 0; i < P; ++i) { obs_str("pt.name", pn[i]); __vp_obs_f32("pt.x", in[k]); __vp_obs_f32("pt.y", in[k+1]); __vp_obs_f32("pt.z", in[k+2]); __vp_obs_f32("pt.residual", in[k+3]); k += 4; }
-    __vp_obs_u64("frm.nbSubframes", C ? S : 0);
-    for (int s = 0; s < (C ? S : 0); ++s) { __vp_obs_u64("sub.nbChannels", C); for (int i = 0; i < C; ++i) { obs_str("ch.name", an[i]); __vp_obs_f32("ch.data", in[k++]); } }
-  }
+  emit_inputs(B);
   __vp_reached("c01.end");
+  return 0;
+}
+// C03/C14: build -> dump -> write; the saved bytes are observed
+extern "C" int h_save() {
+  ezc3d::c3d c; Built B;
+  build_object(c, B);
+  // alignment filler: parameters whose descriptions have concrete lengths summing to cfg pad (steers the
+  // parameter-section length through all residues modulo the 512-byte block size)
+  int pad = __vp_cfg("pad");
+  for (int k = 0; pad >= 0 && k < 3; ++k) {
+    int len = pad > 255 ? 255 : pad;
+    std::string nm("PAD"); nm.push_back(char('A' + k));
+    Param p(nm, std::string(len, 'd')); p.set(std::vector<int>() = {k});
+    c.parameter("PADG", p);
+    pad -= len; if (pad == 0) pad = -1;
+  }
+  dump_all(c, "pre", true);
+  c.write("out.c3d");
+  dump_all(c, "pre2", true);
+  __vp_tag("files"); __vp_obs_file("out.c3d");
+  emit_inputs(B);
+  __vp_reached("save.end");
   return 0;
 }
